@@ -46,6 +46,7 @@ func (vc *VC) instr(ins ssa.Instruction) {
 		vc.val[x] = a
 		if isStruct(t) {
 			vc.zeroStructAt(a, t)
+			vc.zeroBuilders(a, t, 0)
 		} else if at, ok := t.Underlying().(*types.Array); ok {
 			n, s := vc.e.elemArr(at.Elem())
 			vc.setArr(n, s, Sto(vc.arrCur(n, s), a, "((as const (Array Int "+vc.e.sortOf(at.Elem())+")) "+vc.e.zeroOf(at.Elem())+")"))
@@ -490,6 +491,37 @@ func (vc *VC) store(x *ssa.Store) {
 	} else {
 		n, s := vc.e.cellArr(t)
 		vc.setArr(n, s, Sto(vc.arrCur(n, s), p, v))
+	}
+}
+
+// The text accumulated in a strings.Builder / bytes.Buffer is summarised by one ghost bit per builder
+// object: GB:hasnl[addr] - "the content has a line break" (C16). A fresh builder is empty.
+const builderArr, builderSort = "GB:hasnl", "(Array Int Bool)"
+
+func isBuilderType(t types.Type) bool {
+	if nt, ok := t.(*types.Named); ok && nt.Obj().Pkg() != nil {
+		q := nt.Obj().Pkg().Path() + "." + nt.Obj().Name()
+		return q == "strings.Builder" || q == "bytes.Buffer"
+	}
+	return false
+}
+
+func (vc *VC) zeroBuilders(ref Term, t types.Type, depth int) {
+	if depth > 4 {
+		return
+	}
+	if isBuilderType(t) {
+		vc.setArr(builderArr, builderSort, Sto(vc.arrCur(builderArr, builderSort), ref, "false"))
+		return
+	}
+	st, ok := t.Underlying().(*types.Struct)
+	if !ok {
+		return
+	}
+	for i := 0; i < st.NumFields(); i++ {
+		if isStruct(st.Field(i).Type()) {
+			vc.zeroBuilders(vc.embPtr(t, i, ref), st.Field(i).Type(), depth+1)
+		}
 	}
 }
 
